@@ -18,7 +18,7 @@ func c09NumCases(env *core.Env) int {
 	if env.Thorough() {
 		return 40000
 	}
-	return 2000
+	return 10000
 }
 
 // twinTextWorld builds a world in which the same relative $ref text occurs in documents of two different directories
